@@ -104,6 +104,11 @@ impl SignedAnnounce {
 }
 
 fn system_time() -> u64 {
+    #[cfg(mainline_verif)]
+    if let Some(micros) = crate::verif::unix_micros() {
+        return micros;
+    }
+
     SystemTime::now()
         .duration_since(SystemTime::UNIX_EPOCH)
         .expect("time drift")
